@@ -32,7 +32,7 @@ PROP = dict(
     design_ref="DESIGN.md §6 C26",
     level_text="Theorems over all heaps, addresses and 64-bit indices about a heap model of the VM's array instructions and the prelude's "
                "extension functions: each refines the list operation (l ++ [x], dropLast/getLast, two-sided bound, set, least index, "
-               "swap-with-last removal), errors are ArrayOutOfBounds with no partial write, clone/filled produce deep, mutually independent "
+               "swap-with-last removal), out-of-range indices answer the ArrayOutOfBounds error (in the model an error carries no heap: the program stops there; swap reads both elements before its first write), clone/filled produce deep, mutually independent "
                "copies at any nesting depth. Tied to /repo on every run by executing random aliased histories on the real VM.",
     level_note="The step from vm.rs / prelude.abra to the heap model is by correspondence. D6 (pop on an empty array panicked the host; design phase) and D34/D35 (array<void>: element reads in for-bodies faulted the VM, "
                "out-of-range stores of void were not detected; found by this check) are fixed in /repo; their inputs run on every run as a regression corpus.",
